@@ -166,7 +166,8 @@ def cmdTrace (cls opts data : String) : String :=
 
 def sourceKind? (s : String) : Option SourceKind :=
   if s == "seek" then some .seekable
-  else if s.startsWith "raw:" then (s.drop 4).toString.toNat?.map SourceKind.rawNonSeekable
+  else if s.startsWith "raw:" then
+    (((s.drop 4).toString.splitOn ",").mapM (fun (t : String) => t.toNat?)).map SourceKind.rawNonSeekable
   else none
 
 /-- `par <entry> <strict01> <quoted01> <source> <hexbytes>` -/
